@@ -7,10 +7,13 @@
   * `cut_param_range_float` (= `cut_param_range_float_statement`, full strength): `τ ≤ ℓ (1 + 2⁻²³)`;
   * `cut_param_nonneg_float`: `len_k ≤ L ⟹ 0 ≤ τ`;
   * `cut_end_point_near_segment_float`: `cut_end_point_near_segment` with `0 ≤ τ ≤ ℓ(1 + κ)`, `κ = 2⁻²³` DERIVED from the
-    booking `len_k ≤ L ≤ len_k ⊕ f64::from(ell)` instead of assumed; kernel-evaluated demo.
+    booking `len_k ≤ L ≤ len_k ⊕ f64::from(ell)` instead of assumed; kernel-evaluated demo;
+  * `sqrt_len_err` (uses Lemmas/FloatErrSqrt.lean): the length `ell = f64::from(s).sqrt() as f32` of `Pos::length` satisfies
+    `ℓ² (1 − 2⁻²²) ≤ s ≤ ℓ² (1 + 2⁻²²)` — the `f64` square root is now covered by the error layer.
 -/
 import RosuModel.Props.C16IeeeCut
 import RosuModel.Lemmas.FloatErrCvt
+import RosuModel.Lemmas.FloatErrSqrt
 namespace Rosu.C16
 open Rosu Rosu.FErr
 
@@ -80,6 +83,62 @@ theorem cut_end_point_near_segment_float (pp pe : Pos Float32) (L lk : Float)
     (lt_of_lt_of_le (two_zpow_pos _) hℓmin) hle (cut_param_nonneg_float L lk hfd hdf hlL)
     (cut_param_range_float L lk _ hfs hfd hell hdf hlL hLs hl0 hlℓ hℓmin) (by norm_num) (le_refl _)
 
+/-! ### the length `ell` the code computes: `f64::from(s).sqrt() as f32` -/
+
+/-- **the `f32` length of `Pos::length`**, `ℓ = (f64::from(s).sqrt()) as f32` for the `f32` sum of squares `s ≥ 2⁻²⁵⁰`:
+an exact conversion, one correctly rounded `f64` square root (`sqrt_sq_err_float`) and one correct rounding to `f32`
+(`down_rnd`) give `ℓ ≥ 0` and `ℓ² (1 − 2⁻²²) ≤ s ≤ ℓ² (1 + 2⁻²²)` — the parameter `ell` of Props/C16IeeeCut.lean is the
+square root of the `f32` sum of squares up to a relative error `< 2⁻²³` (all three conversions / roundings covered by
+the error layer). -/
+theorem sqrt_len_err (s : Float32) (hs : s.isFinite = true) (hs0 : Scalar.le (0 : Float32) s = true)
+    (hy : (Scalar.sqrt (Cvt.up s : Float) : Float).isFinite = true)
+    (hl : (Cvt.down (Scalar.sqrt (Cvt.up s : Float) : Float) : Float32).isFinite = true)
+    (hn : (2 : ℚ) ^ (-250 : Int) ≤ toRat32 s) :
+    0 ≤ toRat32 (Cvt.down (Scalar.sqrt (Cvt.up s : Float) : Float) : Float32) ∧
+    toRat32 (Cvt.down (Scalar.sqrt (Cvt.up s : Float) : Float) : Float32) ^ 2 * (1 - (2 : ℚ) ^ (-22 : Int)) ≤ toRat32 s ∧
+    toRat32 s ≤ toRat32 (Cvt.down (Scalar.sqrt (Cvt.up s : Float) : Float) : Float32) ^ 2 * (1 + (2 : ℚ) ^ (-22 : Int)) := by
+  obtain ⟨hy0, hlo, hhi⟩ := sqrt_sq_err_float (Cvt.up s) (up_finite s hs) (FB.up_nonneg s hs0) hy
+  rw [toRat_up s hs] at hlo hhi
+  have hyn : (2 : ℚ) ^ (-126 : Int) ≤ |toRat (Scalar.sqrt (Cvt.up s : Float) : Float)| := by
+    rw [abs_of_nonneg hy0]
+    by_contra hc
+    rw [not_le] at hc
+    have h1 : toRat (Scalar.sqrt (Cvt.up s : Float) : Float) ^ 2 < ((2 : ℚ) ^ (-126 : Int)) ^ 2 :=
+      pow_lt_pow_left₀ hc hy0 (by norm_num)
+    have h2 : ((2 : ℚ) ^ (-126 : Int)) ^ 2 * (1 + (2 : ℚ) ^ (-53 : Int)) ^ 2 ≤ (2 : ℚ) ^ (-250 : Int) / 2 := by norm_num
+    have h3 : toRat (Scalar.sqrt (Cvt.up s : Float) : Float) ^ 2 * (1 + (2 : ℚ) ^ (-53 : Int)) ^ 2 ≤
+        ((2 : ℚ) ^ (-126 : Int)) ^ 2 * (1 + (2 : ℚ) ^ (-53 : Int)) ^ 2 :=
+      mul_le_mul_of_nonneg_right h1.le (by positivity)
+    have h4 : (0 : ℚ) < (2 : ℚ) ^ (-250 : Int) := two_zpow_pos _
+    have h5 := le_trans hn (le_trans hhi (le_trans h3 h2))
+    generalize (2 : ℚ) ^ (-250 : Int) = c at h4 h5
+    linarith
+  obtain ⟨δ, hδ, hℓ⟩ := (down_rnd _ hy hl).rel hyn
+  rw [hℓ]
+  generalize toRat (Scalar.sqrt (Cvt.up s : Float) : Float) = y at *
+  obtain ⟨d1, d2⟩ := abs_le.mp hδ
+  have u1 : (2 : ℚ) ^ (-24 : Int) < 1 := by norm_num
+  have hY : 0 ≤ y ^ 2 := sq_nonneg y
+  have b1 : (1 + δ) ^ 2 ≤ (1 + (2 : ℚ) ^ (-24 : Int)) ^ 2 := pow_le_pow_left₀ (by linarith) (by linarith) 2
+  have b2 : (1 - (2 : ℚ) ^ (-24 : Int)) ^ 2 ≤ (1 + δ) ^ 2 := pow_le_pow_left₀ (by linarith) (by linarith) 2
+  refine ⟨mul_nonneg hy0 (by linarith), ?_, ?_⟩
+  · have c : (1 + (2 : ℚ) ^ (-24 : Int)) ^ 2 * (1 - (2 : ℚ) ^ (-22 : Int)) ≤ 1 - (2 : ℚ) ^ (-52 : Int) := by norm_num
+    calc (y * (1 + δ)) ^ 2 * (1 - (2 : ℚ) ^ (-22 : Int)) = y ^ 2 * ((1 + δ) ^ 2 * (1 - (2 : ℚ) ^ (-22 : Int))) := by ring
+      _ ≤ y ^ 2 * ((1 + (2 : ℚ) ^ (-24 : Int)) ^ 2 * (1 - (2 : ℚ) ^ (-22 : Int))) :=
+          mul_le_mul_of_nonneg_left (mul_le_mul_of_nonneg_right b1 (by norm_num)) hY
+      _ ≤ y ^ 2 * (1 - (2 : ℚ) ^ (-52 : Int)) := mul_le_mul_of_nonneg_left c hY
+      _ ≤ _ := hlo
+  · have c : (1 + (2 : ℚ) ^ (-53 : Int)) ^ 2 ≤ (1 - (2 : ℚ) ^ (-24 : Int)) ^ 2 * (1 + (2 : ℚ) ^ (-22 : Int)) := by norm_num
+    calc toRat32 s ≤ y ^ 2 * (1 + (2 : ℚ) ^ (-53 : Int)) ^ 2 := hhi
+      _ ≤ y ^ 2 * ((1 - (2 : ℚ) ^ (-24 : Int)) ^ 2 * (1 + (2 : ℚ) ^ (-22 : Int))) := mul_le_mul_of_nonneg_left c hY
+      _ ≤ y ^ 2 * ((1 + δ) ^ 2 * (1 + (2 : ℚ) ^ (-22 : Int))) :=
+          mul_le_mul_of_nonneg_left (mul_le_mul_of_nonneg_right b2 (by norm_num)) hY
+      _ = (y * (1 + δ)) ^ 2 * (1 + (2 : ℚ) ^ (-22 : Int)) := by ring
+
+/-- `Pos::length` is that computation on the `f32` sum of squares. -/
+theorem length_eq (a : Pos Float32) :
+    Pos.length Float a = Cvt.down (Scalar.sqrt (Cvt.up (a.x * a.x + a.y * a.y) : Float) : Float) := rfl
+
 /-! ### non-vacuity: the demo of Props/C16IeeeCut.lean, evaluated by the kernel -/
 
 section Examples
@@ -124,6 +183,20 @@ example : ∃ ρ' : ℚ, 0 ≤ ρ' ∧ ρ' ≤ 1 ∧
   have a4 : toRat32 demoPE.y = 224 := demo_224
   rw [a1, a2, a3, a4] at h
   exact h
+
+/-- the hypotheses of `sqrt_len_err` hold on the demo segment (`s = 7² + 24² = 625`), so its conclusion does:
+`ℓ² (1 − 2⁻²²) ≤ 625 ≤ ℓ² (1 + 2⁻²²)` for `ℓ = Pos::length = 25`. -/
+example : toRat32 (Pos.length Float (demoPE - demoPP)) ^ 2 * (1 - (2 : ℚ) ^ (-22 : Int)) ≤ 625 ∧
+    625 ≤ toRat32 (Pos.length Float (demoPE - demoPP)) ^ 2 * (1 + (2 : ℚ) ^ (-22 : Int)) := by
+  have hs : (demoPE - demoPP).x * (demoPE - demoPP).x + (demoPE - demoPP).y * (demoPE - demoPP).y =
+      Float32.ofBits 0x441C4000 := by decide +kernel
+  have h625 : toRat32 (Float32.ofBits 0x441C4000) = 625 := by
+    rw [toRat32_bits (s := .positive) (m := 10240000) (e := -14) (hm := by decide) (by decide) rfl]; norm_num [sgnQ]
+  have h := sqrt_len_err (Float32.ofBits 0x441C4000) (by decide +kernel) (by decide +kernel) (by decide +kernel)
+    (by decide +kernel) (by rw [h625]; norm_num)
+  rw [h625] at h
+  rw [length_eq, hs]
+  exact h.2
 
 end Examples
 
